@@ -1063,7 +1063,6 @@ func (s *ClientSession) processAsyncMessage(message *AsyncMessage) {
 						go func() {
 							publisher.Close(context.Background())
 						}()
-						return
 					}
 				}
 			}
@@ -1074,7 +1073,6 @@ func (s *ClientSession) processAsyncMessage(message *AsyncMessage) {
 					go func() {
 						publisher.Close(context.Background())
 					}()
-					return
 				}
 			}
 		}()
